@@ -298,3 +298,89 @@ Definition strictly {X} (r : res (list report * X)) : res X :=
   | Crash => Crash
   | OutOfFuel => OutOfFuel
   end.
+
+(* ======================================================================================
+   Reading a file FILTERED by a citation list -- what both engines do:
+   parser(wanted_entries=citations).parse_files(...)  (pybtex/__init__.py:150-155,
+   bibtex/interpreter.py:288-295), i.e. BibliographyData(wanted_entries=citations) and one
+   add_entry per entry of the file, in file order.
+   ====================================================================================== *)
+
+(* BibliographyData.want_entry (database/__init__.py:179-184); [w] = self.wanted_entries *)
+Definition want_entry (w : option (list str)) (k : str) : bool :=
+  match w with
+  | None => true
+  | Some ws => ci_mem ws k || ci_mem ws s_star
+  end.
+
+(* get_canonical_key (186-190): the spelling held by self.citations = CaseInsensitiveSet(wanted_entries)
+   (a later spelling of the same key overwrites an earlier one), else the key itself *)
+Definition canonical_key (cits : list str) (k : str) : str :=
+  match find (fun c => str_eqb (lower c) (lower k)) (rev cits) with
+  | Some c => c
+  | None => k
+  end.
+
+(* entry.key = ... *)
+Definition rekey (k : str) (e : entry) : entry := mkEntry (e_id e) k (e_fields e) (e_persons e).
+
+(* state of the reader: self.entries, self.wanted_entries, keys reported as repeated *)
+Definition rstate := (db * option (list str) * list str)%type.
+
+(* BibliographyData.add_entry (192-206).  The parser's want_current_entry asks the same
+   want_entry just before, so skipped and refused entries coincide. *)
+Definition add_entry (cits : list str) (st : rstate) (ke : str * entry) : rstate :=
+  let '(d, w, rep) := st in
+  let '(k, e) := ke in
+  if negb (want_entry w k) then st
+  else match ci_get d k with
+       | Some _ => (d, w, rep ++ [k])                    (* repeated bibliography entry: reported, skipped *)
+       | None =>
+         let k' := canonical_key cits k in
+         let w' := match ci_get (e_fields e) s_crossref, w with
+                   | Some c, Some ws => Some (ws ++ [c])  (* self.wanted_entries.add(crossref) *)
+                   | _, _ => w
+                   end in
+         (d ++ [(k', rekey k' e)], w', rep)
+       end.
+
+Definition read_state (wanted : option (list str)) (file : list (str * entry)) : rstate :=
+  fold_left (add_entry (match wanted with Some c => c | None => [] end)) file ([], wanted, []).
+
+(* the database a filtered read produces *)
+Definition read_filtered (wanted : option (list str)) (file : list (str * entry)) : db :=
+  fst (fst (read_state wanted file)).
+
+(* the two engines from a file: read filtered by the citations, then run *)
+Definition bst_run_file (file : db) (cits : list str) (minx : Z) (fs : list str) :=
+  bst_run (read_filtered (Some cits) file) cits minx fs.
+Definition format_bibliography_file (file : db) (cits : list str) (minx : Z) (fs : list str) :=
+  format_bibliography (read_filtered (Some cits) file) cits minx fs.
+
+(* ======================================================================================
+   template names(role) (style/template.py:270-283): what the stock Python styles use for
+   authors and editors.  persons = context['entry'].persons[role]; KeyError -> FieldIsMissing.
+   No bib_data, no cross-reference: an inherited role is NOT seen (finding FC14a).
+   The formatted names are represented by the persons' str(), joined like a field.
+   ====================================================================================== *)
+Definition template_names (e : entry) (role : str) : res (list str) :=
+  match ci_get (e_persons e) role with
+  | Some ps => Ok ps
+  | None => PyErr cls_FieldIsMissing (-1)
+  end.
+
+(* optional[names(role)] *)
+Definition names_var (e : entry) (role : str) : res (option str) :=
+  match template_names e role with
+  | Ok ps => Ok (Some (join s_and ps))
+  | PyErr c l => if N.eqb c cls_FieldIsMissing then Ok None else PyErr c l
+  | Crash => Crash
+  | OutOfFuel => OutOfFuel
+  end.
+
+(* format_bibliography with a template that prints the roles through names() *)
+Definition format_bibliography_names (d : db) (cits : list str) (minx : Z) (roles : list str) : res (list report * list obs) :=
+  let '(cs, errs) := add_extra_citations d cits minx in
+  let '(es, miss) := py_entries d cs in
+  do os <- mapM (fun e => do vs <- mapM (names_var e) roles; Ok (e_key e, vs)) es;
+  Ok (errs ++ miss, os).
